@@ -1,5 +1,6 @@
 import HidVerif.Proofs.LexSymbols
 import HidVerif.Proofs.LexInt
+import HidVerif.Proofs.LexLayout
 /-!
 # C12 — lexing is exact and independent of layout
 
@@ -8,8 +9,10 @@ suite: tokens, spans and error positions on generated texts) instantiated with t
 regenerated from the source and the running Python (`Gen.LexTables`).
 Proved: (i) integer literals for every digit string, base and underscore placement;
 (iii) keyword / flavour classification for the whole keyword table; (iv) longest symbol match,
-independent of the order among equal-length symbols; escape table.  Validated only:
-(v) layout independence and (vi) spans (re-layout searcher).
+independent of the order among equal-length symbols; escape table; (v) layout independence and
+(vi) span exactness for every source in layout form (`lex_of_layout`, `layout_independence`,
+`span_exact`, with symbols and identifiers shown to be pieces).  The re-layout searcher runs the
+same statement through the real lexer.
 -/
 namespace HidVerif.Props.C12
 open HidVerif.Hid.Lex HidVerif.Gen
@@ -71,5 +74,68 @@ theorem escapes_classified : ∀ e ∈ escapeCodes, readEscape [92, e.1] = (matc
     | some bs => .ok bs 2 | none => .err 2) := by decide +kernel
 
 example : readToken (cps "\"a\\x41\\u{e9}\\n\"") = .ok (.str [97, 65, 0xC3, 0xA9, 10]) 15 := by decide +kernel
+
+/-! ## (v), (vi): layout independence and span exactness, for every source text of the layout form -/
+
+/-- **C12 (v)+(vi)**: a source is *laid out* when every line is a sequence of token texts, each
+`SelfDelim` (wherever white space or the end of the line follows, `readToken` reads exactly that
+text as that token), separated by white space (`WFLine`: any mix of blanks and tabs; non-empty
+between two tokens), optionally ending in white space and a `//` comment; lines may be empty or
+comment-only.  For every such source `lex` returns exactly the tokens of the texts, in order,
+each with the span of exactly its text, and ends normally at the end of the last token. -/
+theorem lex_of_layout (lines : List (List Piece × Line)) (hwf : ∀ l ∈ lines, WFLine l.1 l.2) :
+    lex (lines.map render) = (lexemesFrom 0 lines, .eof (lastOf ⟨0, 0⟩ (lexemesFrom 0 lines))) :=
+  lex_layout lines hwf
+
+/-- (v) two layouts of the same token texts — other separators, other comments, other line breaks —
+give the same token sequence, and neither ends in an error -/
+theorem layout_independence (lines lines' : List (List Piece × Line))
+    (hwf : ∀ l ∈ lines, WFLine l.1 l.2) (hwf' : ∀ l ∈ lines', WFLine l.1 l.2) (hsame : tokensOf lines = tokensOf lines') :
+    (lex (lines.map render)).1.map (·.tok) = (lex (lines'.map render)).1.map (·.tok) ∧
+    (∃ c, (lex (lines.map render)).2 = .eof c) ∧ (∃ c, (lex (lines'.map render)).2 = .eof c) :=
+  layout_independent lines lines' hwf hwf' hsame
+
+/-- (vi) the span of every lexeme of a line covers exactly the text of its token -/
+theorem span_exact (i : Nat) (ps : List Piece) (trail L : Line) (col : Nat) (h : L.drop col = renderLine ps trail) :
+    ∀ lx ∈ lexemesAt i col ps, ∃ p ∈ ps, lx.tok = p.2.2 ∧ lx.start.line = i ∧ lx.stop.line = i ∧
+      (L.drop lx.start.col).take (lx.stop.col - lx.start.col) = p.2.1 :=
+  spans_exact i ps trail L col h
+
+/-- the hypothesis is met by every symbol of the language … -/
+theorem symbols_are_pieces (s : String) (hs : s ∈ symbolTokens) : SelfDelim (cps s) (.enum (enumName s)) :=
+  selfDelim_symbol s hs
+
+/-- … and by every plain identifier that is not a keyword (a letter or `_`, then word characters) -/
+theorem identifiers_are_pieces (c : CP) (r : Line) (hc : isIdStart c = true) (hr : ∀ d ∈ r, isWord d = true)
+    (hk : keywordOf (c :: r) = none) : SelfDelim (c :: r) (.ident (c :: r) .none) :=
+  selfDelim_ident c r hc hr hk
+
+/-- a concrete laid-out source: `x1 <= ( y )  // c` then an empty line then `;` -/
+example :
+    let x1 : Piece := ([32], [120, 49], .ident [120, 49] .none)
+    let le : Piece := ([9, 32], cps "<=", .enum (enumName "<="))
+    let lp : Piece := ([32], cps "(", .enum (enumName "("))
+    let y : Piece := ([32], [121], .ident [121] .none)
+    let rp : Piece := ([32], cps ")", .enum (enumName ")"))
+    let semi : Piece := ([], cps ";", .enum (enumName ";"))
+    let lines : List (List Piece × Line) := [([x1, le, lp, y, rp], [32, 32, 47, 47, 32, 99]), ([], []), ([semi], [32])]
+    (∀ l ∈ lines, WFLine l.1 l.2) ∧
+    (lex (lines.map render)).1.map (·.tok) =
+      [.ident [120, 49] .none, .enum "OpToken.LE", .enum "BracToken.LPAREN", .ident [121] .none, .enum "BracToken.RPAREN", .enum "SepToken.SEMICOLON"] := by
+  intro x1 le lp y rp semi lines
+  have hx1 : SelfDelim [120, 49] (.ident [120, 49] .none) := selfDelim_ident 120 [49] (by decide) (by decide) (by decide)
+  have hy : SelfDelim [121] (.ident [121] .none) := selfDelim_ident 121 [] (by decide) (by decide) (by decide)
+  have hwf : ∀ l ∈ lines, WFLine l.1 l.2 := by
+    intro l hl
+    simp only [lines, List.mem_cons, List.not_mem_nil, or_false] at hl
+    rcases hl with rfl | rfl | rfl
+    · exact ⟨by decide, hx1, Or.inr ⟨9, _, rfl, by decide⟩, by decide, selfDelim_symbol "<=" (by decide), Or.inr ⟨32, _, rfl, by decide⟩,
+        by decide, selfDelim_symbol "(" (by decide), Or.inr ⟨32, _, rfl, by decide⟩, by decide, hy, Or.inr ⟨32, _, rfl, by decide⟩,
+        by decide, selfDelim_symbol ")" (by decide), Or.inr ⟨32, _, rfl, by decide⟩, Or.inr ⟨[32, 32], [32, 99], rfl, by decide⟩⟩
+    · exact Or.inl (by decide)
+    · exact ⟨by decide, selfDelim_symbol ";" (by decide), Or.inr ⟨32, _, rfl, by decide⟩, Or.inl (by decide)⟩
+  refine ⟨hwf, ?_⟩
+  rw [lex_layout lines hwf, lexemesFrom_toks]
+  rfl
 
 end HidVerif.Props.C12
